@@ -23,9 +23,12 @@ def main():
     faulthandler.enable()
     ctx = Ctx(a.prop, a.tier, a.seed, a.shard, a.nshards)
     status = "ok"
+    reach = None
     try:
         load_repo()
         ctx.extra["backend"] = backend()
+        from . import inject
+        reach = inject.Reach().start()
         mod = importlib.import_module("vpkg.checks." + a.prop.lower())
         if a.replay:
             v = json.load(open(a.replay))
@@ -37,6 +40,11 @@ def main():
     except BaseException as e:  # harness bug or monitor crash -> inconclusive, never 'held'
         status = "crashed"
         ctx.note_inconclusive("worker crashed: %s: %s\n%s" % (type(e).__name__, e, traceback.format_exc()[-1500:]))
+    if reach is not None:
+        try:
+            ctx.extra["functions_entered"] = reach.stop()
+        except Exception:  # noqa
+            pass
     res = ctx.result()
     res["status"] = status
     tmp = a.out + ".tmp"
